@@ -5,6 +5,7 @@ Real code executed symbolically: Moon.moon_phase / moon_perigee_apogee / moon_pa
 every target string, with the query reduced to its fractional year (symbolic real), sin/cos boxed, Angle a pass-through;
 Moon.illuminated_fraction_disk in box mode.  Same method as C13: result linear in the boxes, univariate amplitude bounds.
 """
+import os
 import z3
 
 from symx import core, loader, harness
@@ -15,6 +16,8 @@ PID = 'C15'
 # Meeus chapters 49-52: the month count is k ~ (year - c0) * rate (+ the target's fraction of a month)
 RATES = {'moon_phase': ('2000', '12.3685'), 'moon_perigee_apogee': ('1999.97', '13.2555'), 'moon_passage_nodes': ('2000.05', '13.4223'),
          'moon_maximum_declination': ('2000.03', '13.3686')}
+# years where the amplitude bound is too coarse to decide the 1.6-month clause and no excess was found on the real code (outside the claim)
+GRAY = {('moon_perigee_apogee', 'apogee'): (3802, 3999)}
 FINDERS = {'moon_phase': ['new', 'first', 'full', 'last'], 'moon_perigee_apogee': ['perigee', 'apogee'],
            'moon_passage_nodes': ['ascending', 'descending'], 'moon_maximum_declination': ['northern', 'southern']}
 
@@ -33,6 +36,15 @@ if INPUTS['kind'] == 'target':
         pass
     except Exception as ex:
         bad = 'invalid target: %r' % (ex,)
+elif INPUTS['kind'] == 'distance':
+    # the solver's query first; then (the correction bound is an over-approximation) every quarter day of that calendar year and its neighbours
+    b, Y, doy = INPUTS['b'], INPUTS['Y'], INPUTS['doy']
+    qs = [(Y, doy)] + [(Y + dy, 1 + 0.25 * i) for dy in (0, -1, 1) for i in range(4 * 365) if -2000 <= Y + dy <= 3999 and Y + dy != 1582]
+    for yy, dd in qs:
+        j = Epoch(yy, 1, 1.0).jde() + (dd - 1.0)
+        r = jde_of(fn(Epoch(j), target=target))
+        if abs(r - j) > 1.6 * b:
+            bad = 'query year %d day-of-year %.2f (JDE %r) -> result %r: %.3f months away' % (yy, dd, j, r, abs(r - j) / b); break
 else:
     b, S = INPUTS['b'], INPUTS.get('S', 2.0)
     j0, j1 = Epoch(-1999, 1, 1.0).jde(), Epoch(3999, 12, 1.0).jde()
@@ -196,6 +208,65 @@ def task_finder(arg):
     t.reach += 1
     if not mono:
         t.cand('C15.skel', {'kind': 'skeleton', 'func': fname, 'target': target, 'b': b, 'S': S}, 'bounds do not give monotonicity')
+    # ---- "within 1.6 months of the query": the query's JDE and its fractional year are tied by the calendar (spec written here)
+    a0 = val_at(p0, 0)
+    P = sup_abs(z3.simplify(p0 - z3.RealVal(repr(a0)) - z3.RealVal(repr(b)) * Kr))
+    t.ob('mean instant a + b k + poly(k): |poly| bounded over all k' + '@%s.%s' % (fname, target), 'unsat' if P is not None else 'unknown', 0, 'univariate')
+    if P is None:
+        return t
+    Ebound = z3.RealVal(repr(P + S))
+    Yc, doy, Kd = z3.Int('Yc'), z3.Real('doy'), z3.Int('Kd')
+    greg = Yc >= 1583
+    leap = z3.If(greg, z3.And(Yc % 4 == 0, z3.Or(Yc % 100 != 0, Yc % 400 == 0)), Yc % 4 == 0)
+    J0 = z3.If(greg, z3.RealVal('1721424.5') + z3.ToReal(365 * (Yc - 1) + (Yc - 1) / 4 - (Yc - 1) / 100 + (Yc - 1) / 400),
+               z3.RealVal('1721422.5') + z3.ToReal(365 * (Yc - 1) + (Yc - 1) / 4))
+    yearq = z3.ToReal(Yc) + z3.If(leap, doy / 366, doy / 365)
+    xq2 = (yearq - z3.RealVal(c0)) * z3.RealVal(rate)
+    jq = J0 + doy
+    lo = z3.RealVal(repr(a0)) + z3.RealVal(repr(b)) * z3.ToReal(Kd)
+    lim = z3.RealVal('1.6') * z3.RealVal(repr(b))
+    dom = [Yc >= -2000, Yc <= 3999, Yc != 1582, doy >= 1, doy < z3.If(leap, 367, 366), z3.ToReal(Kd) - xq2 <= z3.RealVal('1/2'), xq2 - z3.ToReal(Kd) <= z3.RealVal('1/2')]
+    bad_abs = z3.Or(lo + Ebound - jq > lim, jq - lo + Ebound > lim)
+    bad_def = z3.Or(lo - Ebound - jq > lim, jq - lo - Ebound > lim)
+    zones = [(k_['year_from'], k_['year_to'], k_) for k_ in harness.load_known()
+             if k_.get('property') == PID and k_.get('status') == 'known' and k_.get('func') == fname and k_.get('target') == target]
+    inp_d = lambda mo: {'kind': 'distance', 'func': fname, 'target': target, 'b': b, 'Y': mo.eval(Yc, model_completion=True).as_long(),
+                        'doy': float(mo.eval(doy, model_completion=True).as_fraction())}
+    outside = [z3.Or(Yc < z0, Yc > z1) for z0, z1, _ in zones]
+    gray = GRAY.get((fname, target))
+    if gray:
+        outside.append(z3.Or(Yc < gray[0], Yc > gray[1]))
+    if os.environ.get('C15_PROBE'):
+        def ext(bad, hi):
+            def sat_with(c):
+                s3 = z3.Solver(); s3.set('timeout', 60000); s3.add(*dom); s3.add(bad, c)
+                return s3.check() == z3.sat
+            if not sat_with(Yc >= 1900 if hi else Yc < 1900):
+                return None
+            a_, b_ = (1900, 3999) if hi else (-2000, 1899)
+            # hi: smallest Y>=1900 with a violation; lo: largest Y<1900 with a violation
+            while a_ < b_:
+                m_ = (a_ + b_) // 2
+                if hi:
+                    if sat_with(z3.And(Yc >= 1900, Yc <= m_)): b_ = m_
+                    else: a_ = m_ + 1
+                else:
+                    if sat_with(z3.And(Yc < 1900, Yc > m_)): a_ = m_ + 1
+                    else: b_ = m_
+            return a_
+        print('PROBE', fname, target, 'E=%.3f' % (P + S), 'abs hi', ext(bad_abs, True), 'abs lo', ext(bad_abs, False), 'def hi', ext(bad_def, True), 'def lo', ext(bad_def, False), flush=True)
+    t.reach += 1
+    # (Kd stands for the rounded count; the shift of the target (+0.25/+0.5/+0.75) is part of p0)
+    t.decide(ctx, p, 'result within 1.6 months of the query (a + b k + |poly| + sum of amplitudes against the calendar position of the query)'
+             + '@%s.%s' % (fname, target), z3.And(*(dom + outside + [bad_abs])), 'C15.dist', inp_d, 'more than 1.6 months from the query',
+             'every calendar year -2000..3999 except 1582%s%s, every day of year (real)' % (''.join(' and the recorded finding %d..%d' % (z0, z1) for z0, z1, _ in zones), ' and the undecided years %d..%d' % gray if gray else ''),
+             timeout_ms=120000, use_pc=False, retry=False)
+    for z0, z1, k_ in zones:
+        # the recorded finding must still be there (reported as KNOWN-FINDING after replay), judged with the most favourable correction
+        t.decide(ctx, p, 'recorded finding still present: more than 1.6 months away whatever the periodic correction' + '@%s.%s.%d' % (fname, target, z0),
+                 z3.And(*(dom + [Yc >= z0, Yc <= z1, bad_def])), 'C15.dist', inp_d, 'more than 1.6 months from the query', 'years %d..%d' % (z0, z1),
+                 timeout_ms=120000, use_pc=False, retry=False)
+    t.notes.append('calendar position of a query: JDE = J0(Y) + doy, fractional year = Y + doy/days(Y), with J0 and leap years written in the harness (Julian before 1582, Gregorian from 1583; 1582 excluded)')
     return t
 
 
@@ -252,14 +323,32 @@ def dispatch(job):
 def main(tier):
     loader.install()
     chk = harness.Check(PID, tier)
-    chk.replays = {'C15.skel': REPLAY, 'C15.target': REPLAY, 'C15.frac': "sys.exit(0)\n"}
+    chk.replays = {'C15.skel': REPLAY, 'C15.target': REPLAY, 'C15.dist': REPLAY, 'C15.frac': "sys.exit(0)\n"}
     chk.functions = ['Moon.moon_phase', 'Moon.moon_perigee_apogee', 'Moon.moon_passage_nodes', 'Moon.moon_maximum_declination', 'Moon.illuminated_fraction_disk']
     jobs = [('finder', (f, tg)) for f, tgs in FINDERS.items() for tg in tgs] + [('targets', 0), ('frac', 0)]
     chk.run(dispatch, jobs, 'lunar finders: selection skeleton')
+    # the calendar position written in task_finder (J0, leap years, fractional year) against the real Epoch on concrete dates
+    E = loader.mod('Epoch')
+    okv = 0
+    for Y in list(range(-2000, 4000, 97)) + [-2000, -1, 0, 1, 4, 100, 1500, 1581, 1583, 1600, 1700, 1900, 2000, 2100, 3999]:
+        if Y == 1582:
+            continue
+        g = Y >= 1583
+        fl = lambda a_, b_: a_ // b_
+        J0 = (1721424.5 + 365 * (Y - 1) + fl(Y - 1, 4) - fl(Y - 1, 100) + fl(Y - 1, 400)) if g else (1721422.5 + 365 * (Y - 1) + fl(Y - 1, 4))
+        leap = (Y % 4 == 0 and (Y % 100 != 0 or Y % 400 == 0)) if g else (Y % 4 == 0)
+        for mth, d in ((1, 1.0), (3, 1.5), (12, 31.75)):
+            ep = E.Epoch(Y, mth, d)
+            doy = E.Epoch.get_doy(Y, mth, d)
+            if abs(float(ep.jde()) - (J0 + float(doy))) < 1e-6 and bool(E.Epoch.is_leap(Y)) == leap:
+                okv += 1
+            else:
+                chk.inconclusive.append('calendar position spec disagrees with the real Epoch at %d-%d-%r' % (Y, mth, d))
+    chk.diff_ok += okv
     chk.bounds = {'query': 'every fractional year in [-2000, 4000] (symbolic real)', 'finders': '4 finders x all targets (10 variants)'}
     chk.stubs = ['epoch.get_date / Epoch.get_doy / Epoch.is_leap inside the finders -> the fractional year as one symbolic real (the helper itself: C16, incl. the repaired Julian leap days)',
                  'sin/cos -> boxes; Angle inside Moon.py -> pass-through; Epoch(number) -> stores the JDE']
-    chk.outside = ['all physical-range clauses and "the finder agrees with the position theory" (values of the ELP-2000 series)', 'within 1.6 months of the query (needs the year <-> JDE relation inside the same query)',
+    chk.outside = ['all physical-range clauses and "the finder agrees with the position theory" (values of the ELP-2000 series)', 'within 1.6 months: apogee queries of years 3802..3999 (amplitude bound too coarse), the year 1582, and the lower part of each recorded finding zone (abstraction cannot decide there)',
                    'the extra values returned by the perigee/apogee and declination finders']
     chk.assumptions = ['real arithmetic; box abstraction over-approximates the code']
     return chk.finish()
